@@ -1,4 +1,5 @@
 import EraVerif.Gen.Thresholds
+import EraVerif.Model.ScheduleNew
 
 /-!
 # C07 — Quorum thresholds satisfy the n ≥ 5f+1 intersection arithmetic
@@ -137,6 +138,184 @@ theorem total_weight_checked (ws : List Nat) (t : Nat) (h : totalWeightFold ws =
       · split at h
         · cases h; simp only [List.sum_cons]; omega
         · cases h
+
+
+/-! ## `Schedule::new` (transcribed in `Model/ScheduleNew.lean`, compared with the real constructor by the `sched`
+operations of the correspondence run): a committee is accepted **iff** it is non-empty, its keys are distinct, every
+weight is positive, some validator is a leader and the *true* (unbounded) sum of the weights fits in 64 bits; the
+recorded `total_weight` and `leader_weight` are then the true sums — nothing wraps — so the threshold theorems above
+apply to the real committee weight. -/
+section ScheduleNew
+open EraVerif.Model.ScheduleNew
+
+def wsum (vs : List VInfo) : Nat := (vs.map (·.weight)).sum
+def lsum (vs : List VInfo) : Nat := ((vs.filter (·.leader)).map (·.weight)).sum
+
+theorem lsum_le_wsum (vs : List VInfo) : lsum vs ≤ wsum vs := by
+  induction vs with
+  | nil => simp [lsum, wsum]
+  | cons v vs ih =>
+    simp only [lsum, wsum, List.filter_cons, List.map_cons, List.sum_cons] at *
+    split
+    · simp only [List.map_cons, List.sum_cons]; omega
+    · omega
+
+theorem mem_le_sum (l : List Nat) (x : Nat) (h : x ∈ l) : x ≤ l.sum := by
+  induction l with
+  | nil => cases h
+  | cons y ys ih =>
+    simp only [List.sum_cons]
+    rcases List.mem_cons.mp h with rfl | h
+    · omega
+    · have := ih h; omega
+
+theorem newLoop_some (vs : List VInfo) (a a' : Acc) (hl : a.leaderW ≤ a.total) (ht : a.total < 2^64)
+    (h : newLoop vs a = some a') :
+    a'.total = a.total + wsum vs ∧ a'.leaderW = a.leaderW + lsum vs ∧ a'.total < 2^64 ∧
+    a'.keys = (vs.map (·.key)).reverse ++ a.keys ∧
+    (∀ v ∈ vs, 0 < v.weight) ∧ (vs.map (·.key)).Nodup ∧ (∀ v ∈ vs, v.key ∉ a.keys) := by
+  induction vs generalizing a with
+  | nil => simp [newLoop] at h; subst h; simp [wsum, lsum, ht]
+  | cons v vs ih =>
+    simp only [newLoop] at h
+    split at h; · cases h
+    split at h; · cases h
+    split at h; · cases h
+    rename_i hk hw hs
+    have hlw : (if v.leader then (a.leaderW + v.weight) % 2^64 else a.leaderW)
+        = a.leaderW + (if v.leader then v.weight else 0) := by
+      split
+      · apply Nat.mod_eq_of_lt; omega
+      · simp
+    obtain ⟨e1, e2, e3, e4, e5, e6, e7⟩ := ih _ (by simp only [hlw]; split <;> omega) (by simp only; omega) h
+    simp only [hlw] at e2
+    have hk' : v.key ∉ a.keys := by simpa using hk
+    refine ⟨?_, ?_, e3, ?_, ?_, ?_, ?_⟩
+    · simp only [wsum, List.map_cons, List.sum_cons] at *; omega
+    · simp only [lsum, List.filter_cons] at *
+      split <;> simp_all <;> omega
+    · simp [e4]
+    · intro u hu; rcases List.mem_cons.mp hu with rfl | hu
+      · omega
+      · exact e5 u hu
+    · simp only [List.map_cons, List.nodup_cons]
+      refine ⟨?_, e6⟩
+      intro hm
+      obtain ⟨u, hu, huk⟩ := List.mem_map.mp hm
+      have := e7 u hu
+      simp [huk] at this
+    · intro u hu; rcases List.mem_cons.mp hu with rfl | hu
+      · exact hk'
+      · have := e7 u hu
+        simp only [List.mem_cons, not_or] at this
+        exact this.2
+
+theorem newLoop_isSome (vs : List VInfo) (a : Acc)
+    (hw : ∀ v ∈ vs, 0 < v.weight) (hn : (vs.map (·.key)).Nodup) (hd : ∀ v ∈ vs, v.key ∉ a.keys)
+    (hs : a.total + wsum vs < 2^64) : (newLoop vs a).isSome := by
+  induction vs generalizing a with
+  | nil => simp [newLoop]
+  | cons v vs ih =>
+    have hv := hw v (List.mem_cons_self ..)
+    have hkv := hd v (List.mem_cons_self ..)
+    simp only [wsum, List.map_cons, List.sum_cons] at hs
+    simp only [List.map_cons, List.nodup_cons] at hn
+    simp only [newLoop]
+    rw [if_neg (by simpa using hkv), if_neg (by omega), if_neg (by
+      have : 0 ≤ (vs.map (·.weight)).sum := Nat.zero_le _
+      omega)]
+    apply ih
+    · intro u hu; exact hw u (List.mem_cons_of_mem _ hu)
+    · exact hn.2
+    · intro u hu
+      simp only [List.mem_cons, not_or]
+      refine ⟨?_, hd u (List.mem_cons_of_mem _ hu)⟩
+      intro e
+      exact hn.1 (List.mem_map.mpr ⟨u, hu, e⟩)
+    · simp only [wsum]; omega
+
+/-- what an accepted committee records: the true sums, no wrap-around, total in `[1, 2^64)` -/
+theorem schedule_new_total (vs : List VInfo) (t l : Nat) (h : scheduleNew vs = some (t, l)) :
+    t = wsum vs ∧ l = lsum vs ∧ 1 ≤ l ∧ l ≤ t ∧ t < 2^64 := by
+  unfold scheduleNew at h
+  split at h; · cases h
+  rename_i a ha
+  split at h; · cases h
+  split at h; · cases h
+  rename_i _ hany
+  cases h
+  obtain ⟨e1, e2, e3, _, e5, _, _⟩ := newLoop_some vs {} a (by simp) (by simp) ha
+  simp only [Nat.zero_add] at e1 e2
+  have hle := lsum_le_wsum vs
+  have hpos : 1 ≤ lsum vs := by
+    simp only [Bool.not_eq_true, Bool.not_eq_false'] at hany
+    have hany' : vs.any (·.leader) = true := by simpa using hany
+    obtain ⟨u, hu, hul⟩ := List.any_eq_true.mp hany'
+    have hmem : u ∈ vs.filter (·.leader) := List.mem_filter.mpr ⟨hu, hul⟩
+    have : u.weight ≤ ((vs.filter (·.leader)).map (·.weight)).sum :=
+      mem_le_sum _ _ (List.mem_map.mpr ⟨u, hmem, rfl⟩)
+    have := e5 u hu
+    simp only [lsum]; omega
+  refine ⟨e1, e2, by omega, ?_, ?_⟩ <;> omega
+
+/-- exact acceptance condition of the constructor -/
+theorem schedule_new_ok_iff (vs : List VInfo) :
+    (scheduleNew vs).isSome ↔
+      (vs ≠ [] ∧ (vs.map (·.key)).Nodup ∧ (∀ v ∈ vs, 0 < v.weight) ∧ (∃ v ∈ vs, v.leader = true) ∧ wsum vs < 2^64) := by
+  constructor
+  · intro h
+    obtain ⟨⟨t, l⟩, hs⟩ := Option.isSome_iff_exists.mp h
+    have hs' := hs
+    unfold scheduleNew at hs
+    split at hs; · cases hs
+    rename_i a ha
+    split at hs; · cases hs
+    split at hs; · cases hs
+    rename_i hne hany
+    obtain ⟨e1, _, e3, e4, e5, e6, _⟩ := newLoop_some vs {} a (by simp) (by simp) ha
+    refine ⟨?_, e6, e5, ?_, ?_⟩
+    · rintro rfl; simp [newLoop] at ha; subst ha; simp at hne
+    · have hany' : vs.any (·.leader) = true := by simpa using hany
+      obtain ⟨u, hu, hul⟩ := List.any_eq_true.mp hany'
+      exact ⟨u, hu, hul⟩
+    · simp only [Nat.zero_add] at e1; omega
+  · rintro ⟨hne, hn, hw, ⟨u, hu, hul⟩, hs⟩
+    have hsome := newLoop_isSome vs {} hw hn (by simp) (by simpa using hs)
+    obtain ⟨a, ha⟩ := Option.isSome_iff_exists.mp hsome
+    obtain ⟨_, _, _, e4, _, _, _⟩ := newLoop_some vs {} a (by simp) (by simp) ha
+    unfold scheduleNew
+    simp only [ha]
+    have hk : a.keys.isEmpty = false := by
+      cases vs with
+      | nil => exact absurd rfl hne
+      | cons v vs => simp [e4]
+    have hany : vs.any (·.leader) = true := List.any_eq_true.mpr ⟨u, hu, hul⟩
+    simp [hk, hany]
+
+/-- a committee whose true weight does not fit in 64 bits is refused, whatever the split between leaders and
+non-leaders and whatever the order of the validators -/
+theorem schedule_new_rejects_overflow (vs : List VInfo) (h : 2^64 ≤ wsum vs) : scheduleNew vs = none := by
+  cases hs : scheduleNew vs with
+  | none => rfl
+  | some p =>
+    have := (schedule_new_ok_iff vs).mp (by simp [hs])
+    omega
+
+/-- the thresholds of an accepted committee are those of its true total weight `n`, with `1 ≤ n < 2^64`: the
+intersection arithmetic above applies to it -/
+theorem schedule_new_thresholds (vs : List VInfo) (t l : Nat) (h : scheduleNew vs = some (t, l)) :
+    max_faulty_weight_chk t = some (f (wsum vs)) ∧ quorum_threshold_chk t = some (Q (wsum vs)) ∧
+    subquorum_threshold_chk t = some (S (wsum vs)) := by
+  obtain ⟨e, _, h1, h2, h3⟩ := schedule_new_total vs t l h
+  have h1' : 1 ≤ t := by omega
+  subst e
+  exact ⟨max_faulty_no_overflow _ h1' h3, quorum_no_overflow _ h1' h3, subquorum_no_overflow _ h1' h3⟩
+
+example : scheduleNew [⟨0, 2^62, true⟩, ⟨1, 2^62, true⟩, ⟨2, 2^62, false⟩, ⟨3, 2^62, false⟩] = none := by decide
+example : scheduleNew [⟨0, 2^62, true⟩, ⟨1, 2^62, false⟩, ⟨2, 2^62 - 1, false⟩, ⟨3, 2^62, true⟩]
+    = some (2^64 - 1, 2^63) := by decide
+example : scheduleNew [⟨0, 3, false⟩] = none ∧ scheduleNew [⟨0, 3, true⟩, ⟨0, 4, true⟩] = none := by decide
+end ScheduleNew
 
 /-! ## Non-vacuity: the hypotheses are met by concrete committees, including the residues mod 5 and the
 top of the 64-bit range (these `example`s are tests of the statements, not the proof). -/
